@@ -126,7 +126,7 @@ class _AsyncThrottle[**Args, Result]:
                     break
 
             if len(self._entries) >= self._limit:
-                await sleep(self._entries[0] - time_now)
+                await sleep(self._entries[0] + self._period - time_now)
 
             self._entries.append(monotonic())
 
